@@ -117,7 +117,7 @@ CHECKS = {
             {"pkg": "./server", "overlay": "server", "pkgname": "server",
              "harnesses": [
                  {"name": "VerifC06FSM", "quick": {"ops": 3, "kinds": 12, "async": 1}, "thorough": {"ops": 4, "kinds": 12, "async": 1}, "replay": "interpreted", "max-paths": 2000000,
-                  "covers": ["done", "history-applied", "restored-from-snapshot", "replayed"],
+                  "covers": ["done", "history-applied", "restored-from-snapshot", "replayed", "persist-after-later-applies"],
                   "targets": ["Server).Apply", "Server).Snapshot", "Server).Restore", "Server).finishedRecovery", "metadataAPI).AddStream", "metadataAPI).ResumePartition"]},
              ]},
         ],
